@@ -223,3 +223,35 @@ func VerifH_C13_TCPIdleTimeoutMidFrame() {
 	}
 	verifrt.Assert(n1 <= 1, "the first query is answered at most once")
 }
+
+// VerifH_C13_GnetFreshConnection: every connection starts with clean reassembly state, whatever earlier connections
+// did: connection A sends any strict prefix of a frame and goes away (OnClose); connection B is opened afterwards and
+// sends one complete query – it is decoded and answered, and nothing A left behind is released twice.
+func VerifH_C13_GnetFreshConnection() {
+	verifrt.Unwind(160)
+	verifrt.SchedBound(0)
+	verifrt.CtxNoExpiry = true
+	up := &vKeyedUpstream{}
+	r := vRouter([]*rule{{upstream: &upstreamWrapper{tag: "up", u: up}}}, false)
+	e := &gnetServer{r: r, maxConcurrent: 4, idleTimeout: 1}
+	frameA := vFrame(vQueryMsg(0x1111, 'a', false, 0))
+	a := &vGnetConn{}
+	e.OnOpen(a)
+	cut := verifrt.Concrete(verifrt.IntRange("cut", 0, len(frameA)-1))
+	if cut > 0 {
+		a.buf = append(a.buf, frameA[:cut]...)
+		verifrt.Assert(e.OnTraffic(a) == 0, "a partial frame keeps the connection open")
+	}
+	e.OnClose(a, nil)
+	b := &vGnetConn{}
+	_, act := e.OnOpen(b)
+	verifrt.Assert(act == 0, "connection B admitted")
+	b.buf = append(b.buf, vFrame(vQueryMsg(0x2222, 'b', false, 0))...)
+	verifrt.Assert(e.OnTraffic(b) == 0, "one complete valid frame does not close the connection")
+	verifrt.Quiesce()
+	verifrt.Reach("served")
+	bodies := vCheckFrames(b.writes)
+	verifrt.Assert(len(bodies) == 1 && len(a.writes) == 0, "B's query is answered exactly once, on B")
+	vCheckResponse(bodies[0], 0x2222, 'b', true)
+	e.OnClose(b, nil)
+}
